@@ -128,6 +128,9 @@ class Index:
         self.modules: Dict[str, ModuleInfo] = {}
         self.classes: Dict[str, ClassInfo] = {}  # by simple name (unique in coxeter)
         self._load()
+        # tables derived from a tree (unknown cached properties) never outlive the Index they were derived for
+        from .components import bind_tables
+        bind_tables(self)
 
     # ------------------------------------------------------------------ loading
     def _load(self):
